@@ -201,6 +201,10 @@ impl Sm2PrivateKey {
             return Err(Sm2Error::InvalidPrivate);
         }
         let d = u256_from_be_bytes(sk);
+        // a private key is in [1, n-2]: (1 + d) must be invertible modulo n for signing
+        if d.is_zero() || u256_cmp(&d, &SM2_N_MINUS_TWO) > 0 {
+            return Err(Sm2Error::InvalidPrivate);
+        }
         let public_key = public_from_private(&d)?;
         let private_key = Self { d, public_key };
         Ok(private_key)
